@@ -26,11 +26,19 @@ Section Layers.
   (* Normalisation                                                       *)
   (* ================================================================== *)
 
-  (* torch BatchNorm1d in EVALUATION mode: y = x * a_c + b_c per channel c with constants derived from
-     the running statistics (a = gamma / sqrt(running_var + eps), b = beta - running_mean * a) *)
-  Definition bn_eval_row (ps : list (R * R)) (row : vec) : vec :=
-    zipw (fun p x => oadd O (omul O (fst p) x) (snd p)) ps row.
-  Definition bn_eval (ps : list (R * R)) (X : mat) : mat := map (bn_eval_row ps) X.
+  (* torch BatchNorm1d in EVALUATION mode (F.batch_norm with training = False), as it is computed on
+     the [B, F] matrix:
+         (x - running_mean[None, :]) / sqrt(running_var[None, :] + eps) * weight[None, :] + bias[None, :]
+     the `[None, :]` broadcast over the batch axis is `repeat _ B`; all four operations are elementwise
+     on [B, F] matrices.  (Training mode would use the batch mean / variance instead: bn_train below.) *)
+  Definition bn_eval (mean var w b : vec) (X : mat) : mat :=
+    let B := length X in
+    let centred := zipw (vadd O) X (repeat (vfn O FNeg mean) B) in
+    let scaled := zipw (vmul O) centred (repeat (vfn O FRsqrtEps var) B) in
+    zipw (vadd O) (zipw (vmul O) scaled (repeat w B)) (repeat b B).
+  (* the same for one row *)
+  Definition bn_eval_row (mean var w b : vec) (row : vec) : vec :=
+    vadd O (vmul O (vmul O (vadd O row (vfn O FNeg mean)) (vfn O FRsqrtEps var)) w) b.
 
   (* for contrast only (used in a refutation example): TRAINING mode centres by the BATCH mean *)
   Definition bn_train (n : nat) (X : mat) : mat :=
@@ -359,9 +367,11 @@ Section Layers.
   (* ExcelFormerConv.forward:
        x = norm_1(x); x_residual = DiaM(x); x = x_residual + x
        x_residual = norm_2(x); x_residual = AiuM(x_residual); x = x_residual + x
-     Adding the [num_cols, num_cols] mask to the scores needs x.shape[1] == num_cols (torch raises a
-     broadcasting error otherwise, except for the degenerate num_cols = 1 configuration, which is
-     outside the model): None. *)
+     Adding the [num_cols, num_cols] mask to the scores needs x.shape[1] == num_cols: torch raises a
+     broadcasting error otherwise: None.  EXCLUDED from the model: the configuration num_cols = 1, where
+     the [1, 1] mask broadcasts against any number of columns and the code runs unmasked; every theorem
+     about this guard carries the hypothesis 1 < num_cols, and the causality theorems are stated for
+     rows with exactly num_cols columns (where the model is faithful for every num_cols >= 1). *)
   Definition excel_conv (num_cols H d : nat) (Norm1 LinQ LinK LinV : t3 -> t3) (LinOut : option (t3 -> t3))
              (Norm2 A1 A2 : t3 -> t3) (X : t3) : option t3 :=
     if forallb (fun row => length row =? num_cols) X then
